@@ -1,7 +1,7 @@
 (* C02 — the AVL tree stays height-balanced (O(log n)) after every Add and Remove.
    Statements only; every proof is [exact] of a lemma from Avl/Balance.v
    (rotations, add, remove, popLeftMost), Avl/BalanceHist.v (histories) or
-   Avl/Fib.v (size and depth bounds).
+   Avl/Fib.v (size and depth bounds), Avl/CostProofs.v (comparator calls).
 
    Vocabulary (Avl/Balance.v, all computed from the SHAPE, not from the cached field):
      height t     real height: E -> -1, leaf -> 0
@@ -15,7 +15,7 @@
    operation list over any number of tree handles, every handle, no size bound.
    "After every Add or Remove": the theorems hold for all operation lists, hence
    for every prefix of every history (BalanceHist.run_app). *)
-From Typ Require Import Lib.Base Avl.Model Avl.Balance Avl.Fib Avl.BalanceHist.
+From Typ Require Import Lib.Base Avl.Model Avl.Balance Avl.Fib Avl.BalanceHist Avl.Cost Avl.CostProofs.
 Local Open Scope Z_scope.
 
 (* ---- rebalance: the four rotation cases, with the exact result and height ---- *)
@@ -176,6 +176,26 @@ Theorem C02_every_element_has_a_level :
 Proof. exact @In_occurs_at. Qed.
 Print Assumptions C02_every_element_has_a_level.
 
+(* ---- cost: comparator calls of Contains / Add / Remove ----
+   contains_cost / add_cost / remove_cost (Avl/Cost.v) are the model's functions
+   returning in addition the number of comparator calls: same results, at most
+   height+1 calls (one per level), hence at most 1.4405*log2(n+2) on a
+   height-balanced tree — the documented O(log n). *)
+Theorem C02_cost :
+  forall (A : Type) (eqb : A -> A -> bool) (cmp : A -> A -> Z) (value : A) (t : tree),
+  fst (contains_cost eqb cmp value t) = contains eqb cmp value t /\
+  fst (add_cost cmp value t) = add cmp value t /\
+  fst (remove_cost eqb cmp value t) = remove eqb cmp value t /\
+  Z.of_nat (snd (contains_cost eqb cmp value t)) <= height t + 1 /\
+  Z.of_nat (snd (add_cost cmp value t)) <= height t + 1 /\
+  Z.of_nat (snd (remove_cost eqb cmp value t)) <= height t + 1 /\
+  (avl t ->
+   2 ^ (10000 * Z.of_nat (snd (contains_cost eqb cmp value t))) <= (size t + 2) ^ 14405 /\
+   2 ^ (10000 * Z.of_nat (snd (add_cost cmp value t))) <= (size t + 2) ^ 14405 /\
+   2 ^ (10000 * Z.of_nat (snd (remove_cost eqb cmp value t))) <= (size t + 2) ^ 14405).
+Proof. exact @cost_bound. Qed.
+Print Assumptions C02_cost.
+
 (* ---- non-vacuity: evaluated instances (adds, final_root: Avl/BalanceHist.v) ----
    sorted input 1..7 gives the perfect tree (single left rotations all the way);
    3,1,2 needs a double rotation in add; removing the two-child root 5 pops its
@@ -190,5 +210,7 @@ Example C02_example :
   final_root (adds [5;2;8;1;7;10;9]) = Some (N (N (leaf 1) 2 1 E) 5 3 (N (leaf 7) 8 2 (N (leaf 9) 10 1 E))) /\
   final_root (adds [5;2;8;1;7;10;9] ++ [OpRemove 0 5]) =
     Some (N (N (leaf 1) 2 1 E) 7 2 (N (leaf 8) 9 1 (leaf 10))) /\
-  rebalance (node (leaf 1) 2 (N (leaf 3) 4 1 (leaf 5))) = Ok (node (leaf 1) 2 (N (leaf 3) 4 1 (leaf 5))).
+  rebalance (node (leaf 1) 2 (N (leaf 3) 4 1 (leaf 5))) = Ok (node (leaf 1) 2 (N (leaf 3) 4 1 (leaf 5))) /\
+  snd (contains_cost Z.eqb zcompare 7 (N (N (leaf 1) 2 1 (leaf 3)) 4 2 (N (leaf 5) 6 1 (leaf 7)))) = 2%nat /\
+  snd (add_cost zcompare 8 (N (N (leaf 1) 2 1 (leaf 3)) 4 2 (N (leaf 5) 6 1 (leaf 7)))) = 3%nat.
 Proof. vm_compute. repeat split. Qed.
